@@ -33,9 +33,19 @@ const DOCS: &[(&str, usize)] = &[
     ("subscription { evonn { n2 onn { a n } } }", 2),
     ("{ n a o { n } }", 1),
     ("mutation { mn inc }", 1),
+    // thorough tier only (QUICK_DOCS = the first 10)
+    ("subscription { ev { n a } }", 3),
+    ("subscription { evonn { n a } }", 3),
+    ("subscription { ev { n a } evn }", 2),
+    ("subscription { evn evnn evonn { n } }", 1),
+    ("subscription { ev { n n2 } x: ev { a n } }", 2),
+    ("subscription { ev { o { n a } n } evn }", 2),
+    ("subscription { evonn { n2 onn { a n } } evnn }", 2),
 ];
+const QUICK_DOCS: usize = 10;
 
 struct Run {
+    dynamic: bool,
     /// faults apply to event 0 only (single-root documents): later events must be clean
     only_first: bool,
     doc: usize,
@@ -47,7 +57,8 @@ struct Run {
     ref_errors: Vec<ExecError>,
 }
 
-fn run_one(refs: &Schema, schema: &s1::S1, ch: &mut Chooser, ndocs: usize) -> Run {
+fn run_one(refs: &Schema, schema: &s1::S1, dynschema: &async_graphql::dynamic::Schema, ch: &mut Chooser, ndocs: usize) -> Run {
+    let dynamic = ch.any("flavour", 2) == 1;
     let di = ch.any("doc", ndocs);
     let (text, events) = DOCS[di];
     let doc = agv_refgql::parse::parse_exec(text).unwrap();
@@ -68,58 +79,71 @@ fn run_one(refs: &Schema, schema: &s1::S1, ch: &mut Chooser, ndocs: usize) -> Ru
     let wd = Arc::new(wdv);
     let req = Request::new(text).data(wd.clone());
     let cfg = RunCfg { policy: Policy::Eager, gate_class: Class::Exhaustive, preempt_class: Class::Dev(3), max_steps: 5000 };
-    let r = sched::run(&h, ch, &cfg, schema.execute_stream(req).collect::<Vec<_>>(), &mut |_| {});
-    Run { only_first, doc: di, table, responses: r.output.map(|v| v.iter().map(obs_of).collect()).unwrap_or_default(), end: r.end, schedule: r.schedule, ref_data: reference.data.unwrap_or(J::Null), ref_errors: reference.errors }
+    let r = if dynamic { sched::run(&h, ch, &cfg, dynschema.execute_stream(req).collect::<Vec<_>>(), &mut |_| {}) } else { sched::run(&h, ch, &cfg, schema.execute_stream(req).collect::<Vec<_>>(), &mut |_| {}) };
+    Run { dynamic, only_first, doc: di, table, responses: r.output.map(|v| v.iter().map(obs_of).collect()).unwrap_or_default(), end: r.end, schedule: r.schedule, ref_data: reference.data.unwrap_or(J::Null), ref_errors: reference.errors }
 }
 
 fn run(cx: &Cx) {
     let refs = Schema::from_sdl(s1::SDL).unwrap();
     let schema = s1::schema();
-    let ndocs = DOCS.len();
-    {
-        let a = run_one(&refs, &schema, &mut Chooser::from_choices(&[2, 0, 1, 1, 0, 1]), ndocs);
-        let b = run_one(&refs, &schema, &mut Chooser::from_choices(&[2, 0, 1, 1, 0, 1]), ndocs);
+    let ndocs = if cx.quick() { QUICK_DOCS } else { DOCS.len() };
+    let dynschema = match agv_common::dynamic::build(&refs, Default::default()) {
+        Ok(d) => d,
+        Err(e) => return cx.machinery_error(format!("dynamic twin of S1 does not build: {e}")),
+    };
+    for fl in [0u32, 1] {
+        let a = run_one(&refs, &schema, &dynschema, &mut Chooser::from_choices(&[fl, 2, 0, 1, 1, 0, 1]), ndocs);
+        let b = run_one(&refs, &schema, &dynschema, &mut Chooser::from_choices(&[fl, 2, 0, 1, 1, 0, 1]), ndocs);
         if a.responses != b.responses || a.schedule != b.schedule {
             return cx.machinery_error("replaying one schedule twice gave different observations");
         }
     }
+    let faults = if cx.quick() { 2 } else { 3 };
+    let ended = std::sync::atomic::AtomicU64::new(0);
+    let by_flavour = [std::sync::atomic::AtomicU64::new(0), std::sync::atomic::AtomicU64::new(0)];
     let st = explore(
-        &ExploreCfg { bounds: [0, 2, 0, 0], ..Default::default() },
-        &|ch: &mut Chooser| run_one(&refs, &schema, ch, ndocs),
+        &ExploreCfg { bounds: [0, faults, 0, 0], ..Default::default() },
+        &|ch: &mut Chooser| run_one(&refs, &schema, &dynschema, ch, ndocs),
         &|_, r: Run| {
             cx.eval();
+            by_flavour[r.dynamic as usize].fetch_add(1, std::sync::atomic::Ordering::Relaxed);
             cx.add_traces(1);
             cx.add_transitions(r.schedule.len() as u64);
             let (text, events) = DOCS[r.doc];
             let root_nodes = agv_refgql::parse::parse_exec(text).unwrap().ops().next().unwrap().sel.len();
             let is_sub = text.starts_with("subscription");
-            let case = json!({"query": text, "world": table_json(&r.table), "schedule": r.schedule, "events_per_field": events, "faults_only_in_event_0": r.only_first});
+            let flavour = if r.dynamic { "dynamic" } else { "static" };
+            let case = json!({"flavour": flavour, "query": text, "world": table_json(&r.table), "schedule": r.schedule, "events_per_field": events, "faults_only_in_event_0": r.only_first});
             if r.end != End::Done {
-                return cx.violation(Violation::new("no-termination", format!("stream ended {:?} after {:?}", r.end, r.schedule), case).key("doc", text).key("root_nodes", root_nodes.to_string()));
+                return cx.violation(Violation::new("no-termination", format!("stream ended {:?} after {:?}", r.end, r.schedule), case).key("doc", text).key("root_nodes", root_nodes.to_string()).key("flavour", flavour));
             }
             let doc = agv_refgql::parse::parse_exec(text).unwrap();
             let root_keys: Vec<String> = doc.ops().next().unwrap().sel.iter().filter_map(|s| if let agv_refgql::ast::Selection::Field(f) = s { Some(f.key().to_string()) } else { None }).collect();
             let describe = |i: usize, o: &Obs| format!("response #{i}: data {} errors {:?}\n schedule {:?}\n all responses {:?}", o.data, o.errors.iter().map(|e| (path_str(&e.path), e.message.clone())).collect::<Vec<_>>(), r.schedule, r.responses.iter().map(|o| o.data.clone()).collect::<Vec<_>>());
             if !is_sub {
                 if r.responses.len() != 1 {
-                    cx.violation(Violation::new("streamed-query-response-count", format!("a streamed query/mutation produced {} responses", r.responses.len()), case).key("doc", text).key("root_nodes", root_nodes.to_string()));
+                    cx.violation(Violation::new("streamed-query-response-count", format!("a streamed query/mutation produced {} responses", r.responses.len()), case).key("doc", text).key("root_nodes", root_nodes.to_string()).key("flavour", flavour));
                 }
-                cx.nontrivial(agv_engine::h64(&(r.doc, &r.schedule, format!("{:?}", r.table))));
+                cx.nontrivial(agv_engine::h64(&(r.dynamic, r.doc, &r.schedule, format!("{:?}", r.table))));
                 return;
             }
-            let clean = if r.only_first {
-                let w = agv_refgql::exec::TableWorld::default();
-                Some(execute(&refs, &doc, None, &Default::default(), &mut agv_refgql::exec::TableWorldRef { s: &refs, w: &w }))
-            } else {
-                None
+            // reference per root field: the document reduced to the selections with that response key (every root
+            // field of a subscription is its own stream; another root field's data-nulling error does not concern it);
+            // `clean` = the world of the later events when the faults are confined to event 0
+            let reference_for = |key: &str, clean: bool| {
+                let mut d = doc.clone();
+                for def in d.defs.iter_mut() {
+                    if let agv_refgql::ast::ExecDef::Op(o) = def {
+                        o.sel.retain(|s| matches!(s, agv_refgql::ast::Selection::Field(f) if f.key() == key));
+                    }
+                }
+                let w = agv_refgql::exec::TableWorld { table: if clean { Default::default() } else { r.table.iter().map(|(k, v)| (k.trim_end_matches("@0").to_string(), v.clone())).collect() } };
+                execute(&refs, &d, None, &Default::default(), &mut agv_refgql::exec::TableWorldRef { s: &refs, w: &w })
             };
+            let _ = (&r.ref_errors, &r.ref_data);
             let mut seen: BTreeMap<String, usize> = BTreeMap::new();
+            let mut last_null: BTreeMap<String, bool> = BTreeMap::new();
             for (i, o) in r.responses.iter().enumerate() {
-                // single-root documents deliver their events in order: response i is event i
-                let (ref_errors, ref_data): (&Vec<ExecError>, J) = match (&clean, i) {
-                    (Some(c), i) if i > 0 => (&c.errors, c.data.clone().unwrap_or(J::Null)),
-                    _ => (&r.ref_errors, r.ref_data.clone()),
-                };
                 let data: J = serde_json::from_str(&o.data).unwrap_or(J::Null);
                 // which root field does this response belong to?
                 let key = match &data {
@@ -127,21 +151,25 @@ fn run(cx: &Cx) {
                     J::Null => match o.errors.first().and_then(|e| e.path.first()) {
                         Some(Seg::Key(k)) => k.clone(),
                         _ => {
-                            cx.violation(Violation::new("response-not-attributable", describe(i, o), case.clone()).key("doc", text).key("root_nodes", root_nodes.to_string()));
+                            cx.violation(Violation::new("response-not-attributable", describe(i, o), case.clone()).key("doc", text).key("root_nodes", root_nodes.to_string()).key("flavour", flavour));
                             continue;
                         }
                     },
                     _ => {
-                        cx.violation(Violation::new("response-holds-several-root-fields", describe(i, o), case.clone()).key("doc", text).key("root_nodes", root_nodes.to_string()));
+                        cx.violation(Violation::new("response-holds-several-root-fields", describe(i, o), case.clone()).key("doc", text).key("root_nodes", root_nodes.to_string()).key("flavour", flavour));
                         continue;
                     }
                 };
+                // single-root documents deliver their events in order: response i is event i
+                let rf = reference_for(&key, r.only_first && i > 0);
+                let (ref_errors, ref_data): (&Vec<ExecError>, J) = (&rf.errors, rf.data.clone().unwrap_or(J::Null));
                 *seen.entry(key.clone()).or_insert(0) += 1;
+                last_null.insert(key.clone(), data.is_null());
                 // errors of another root field?
                 if let Some(e) = o.errors.iter().find(|e| !matches!(e.path.first(), Some(Seg::Key(k)) if *k == key)) {
                     cx.violation(
                         Violation::new("errors-leak-between-root-fields", format!("response for root field {key} carries an error at {:?}\n {}", path_str(&e.path), describe(i, o)), case.clone())
-                            .key("doc", text).key("root_nodes", root_nodes.to_string()),
+                            .key("doc", text).key("root_nodes", root_nodes.to_string()).key("flavour", flavour),
                     );
                     continue;
                 }
@@ -154,39 +182,47 @@ fn run(cx: &Cx) {
                 };
                 if let Err(e) = errors_consistent(&own, &got) {
                     let class = if errors_consistent(&own, &got_dedup).is_ok() { "error-duplicated-for-repeated-key" } else if e.starts_with("expected an error") { "event-error-missing" } else { "event-error-unexpected" };
-                    cx.violation(Violation::new(class, format!("{e} (root field {key}; expected errors at {:?})\n {}", own.iter().map(|e| path_str(&e.path)).collect::<Vec<_>>(), describe(i, o)), case.clone()).key("doc", text).key("root_nodes", root_nodes.to_string()));
+                    cx.violation(Violation::new(class, format!("{e} (root field {key}; expected errors at {:?})\n {}", own.iter().map(|e| path_str(&e.path)).collect::<Vec<_>>(), describe(i, o)), case.clone()).key("doc", text).key("root_nodes", root_nodes.to_string()).key("flavour", flavour));
                     continue;
                 }
                 // own data
                 let nulled_all = own.iter().any(|e| e.nulled.as_deref().map(|n| n.is_empty()).unwrap_or(false));
                 let exp = if nulled_all { J::Null } else { json!({ key.clone(): ref_data.get(&key).cloned().unwrap_or(J::Null) }) };
                 if data != exp {
-                    cx.violation(Violation::new("event-data-differs", format!("root field {key}: expected {exp}\n {}", describe(i, o)), case.clone()).key("doc", text).key("root_nodes", root_nodes.to_string()));
+                    cx.violation(Violation::new("event-data-differs", format!("root field {key}: expected {exp}\n {}", describe(i, o)), case.clone()).key("doc", text).key("root_nodes", root_nodes.to_string()).key("flavour", flavour));
                 }
             }
             for k in &root_keys {
                 let n = seen.get(k).copied().unwrap_or(0);
                 let nodes = root_keys.iter().filter(|x| *x == k).count();
-                if n != events * nodes {
-                    cx.violation(Violation::new("event-count", format!("root field {k}: {n} responses for {events} event(s) × {nodes} node(s)\n responses {:?}\n schedule {:?}", r.responses.iter().map(|o| o.data.clone()).collect::<Vec<_>>(), r.schedule), case.clone()).key("doc", text).key("root_nodes", root_nodes.to_string()));
+                // dynamic schemas end a root field's stream after an event whose error nulled the whole data
+                // (src/dynamic/subscription.rs: "only an error that nulled the whole data ends the stream"); the
+                // statement does not say a stream goes on after such an event, so a shorter stream is accepted there
+                let ended_early = r.dynamic && nodes == 1 && n >= 1 && n < events && last_null.get(k).copied().unwrap_or(false);
+                if ended_early {
+                    ended.fetch_add(1, std::sync::atomic::Ordering::Relaxed);
+                } else if n != events * nodes {
+                    cx.violation(Violation::new("event-count", format!("root field {k}: {n} responses for {events} event(s) × {nodes} node(s)\n responses {:?}\n schedule {:?}", r.responses.iter().map(|o| o.data.clone()).collect::<Vec<_>>(), r.schedule), case.clone()).key("doc", text).key("root_nodes", root_nodes.to_string()).key("flavour", flavour));
                 }
             }
-            let h = agv_engine::h64(&(r.doc, &r.schedule, format!("{:?}", r.table)));
+            let h = agv_engine::h64(&(r.dynamic, r.doc, &r.schedule, format!("{:?}", r.table)));
             if r.schedule.len() >= 2 {
                 cx.nontrivial(h);
             }
-            cx.sample_with(h, || json!({"query": text, "world": table_json(&r.table), "schedule": r.schedule, "responses": r.responses.iter().map(|o| o.to_json()).collect::<Vec<_>>()}));
+            cx.sample_with(h, || json!({"flavour": flavour, "query": text, "world": table_json(&r.table), "schedule": r.schedule, "responses": r.responses.iter().map(|o| o.to_json()).collect::<Vec<_>>()}));
         },
     );
     if let Some(d) = st.diverged {
         cx.machinery_error(d);
     }
-    cx.add_states(DOCS.len() as u64);
-    cx.rule(&format!("case = (document, world, interleaving). {} documents (one root field × 2 events; two root fields incl. an aliased repeat; nested payloads; a query and a mutation through execute_stream) × every world with ≤ 2 failing child resolvers (for single-root documents also with the faults confined to the first event, so that a later event must be clean) × EVERY order of opening the gates of event sources and child resolvers. Non-trivial = executions with ≥ 2 gate openings. traces = executions of the real execute_stream.", DOCS.len()));
+    cx.add_states(2 * ndocs as u64);
+    cx.rule(&format!("case = (flavour, document, world, interleaving); flavours: S1 (derive) and its dynamic twin. {} documents (one root field × 2 events (thorough: also 3); two root fields incl. an aliased repeat; nested payloads; a query and a mutation through execute_stream) × every world with ≤ {faults} failing child resolvers (for single-root documents also with the faults confined to the first event, so that a later event must be clean) × EVERY order of opening the gates of event sources and child resolvers. Non-trivial = executions with ≥ 2 gate openings. traces = executions of the real execute_stream.", ndocs));
     cx.exhaustive(!st.capped);
     cx.extra("schedules", json!(st.executions));
+    cx.extra("schedules_by_flavour", json!({"static": by_flavour[0].load(std::sync::atomic::Ordering::Relaxed), "dynamic": by_flavour[1].load(std::sync::atomic::Ordering::Relaxed)}));
+    cx.extra("dynamic_streams_ended_by_a_data_nulling_event_not_judged", json!(ended.load(std::sync::atomic::Ordering::Relaxed)));
     cx.assume("documents with several subscription root fields are spec-invalid but accepted and pinned by the library's own tests; the property quantifies over them explicitly");
-    cx.assume("static flavour (derive S1); root-level faults are C03's subject");
+    cx.assume("root-level faults are C03's subject");
 }
 
 fn replay(case: &J) -> String {
@@ -196,16 +232,17 @@ fn replay(case: &J) -> String {
     let text = case["query"].as_str().unwrap_or("");
     let Some(di) = DOCS.iter().position(|(d, _)| *d == text) else { return "document is not in the check's list any more".into() };
     let world = format!("{:?}", agv_common::glue::table_from_json(&case["world"]));
+    let dynschema = agv_common::dynamic::build(&refs, Default::default()).expect("dynamic twin");
+    let want_dynamic = case["flavour"] == "dynamic";
     let found = std::sync::Mutex::new(None);
     explore(
         &ExploreCfg { bounds: [0, 2, 0, 0], ..Default::default() },
         &|ch: &mut Chooser| {
             // pin the document choice, leave the rest to the explorer
-            let r = run_one(&refs, &schema, ch, DOCS.len());
-            r
+            run_one(&refs, &schema, &dynschema, ch, DOCS.len())
         },
         &|_, r: Run| {
-            if r.doc == di && r.schedule == want && format!("{:?}", r.table) == world {
+            if r.dynamic == want_dynamic && r.doc == di && r.schedule == want && format!("{:?}", r.table) == world {
                 *found.lock().unwrap() = Some(format!("schedule {:?}\n responses {:?}", r.schedule, r.responses.iter().map(|o| o.to_json().to_string()).collect::<Vec<_>>()));
             }
         },
